@@ -165,9 +165,9 @@ CLAIMED['C10'] = dict(
          'accesses) and replays every executed schedule on the model; small programs get every schedule with at most 2 (thorough: 3) preemptions.',
     note='Coq kernel; no axioms; atomicity of deque/RLock methods under the GIL and "nothing shared is touched between yield points" are assumptions. Further models, each with '
          'its own theorems and the same schedule replay: MultiPort fan-in (ConcMulti.v: no raise, exactly once), MultiPort fan-out (ConcFan.v: no raise, every sub-port gets every '
-         'message exactly once and all in one order, per-sender order), ParserQueue fed by several threads (ConcPQ.v: FIFO, per-feeder order), and the copy clause (SendCopy.v, a '
+         'message exactly once and all in one order, per-sender order), ANY mix of uses of a MultiPort at once (ConcMix.v: no raise, every deque hands out exactly what was put into it and in that order, what the sweep takes off the sub-ports is what reaches the MultiPort\'s own deque, mutual exclusion on every lock), ParserQueue fed by several threads (ConcPQ.v: FIFO, per-feeder order), and the copy clause (SendCopy.v, a '
          'heap of objects with identity: what is received holds the value at send time whatever caller and receivers edit afterwards, for every history and any number of '
-         'queues). Mixed use of a MultiPort and the helper functions multi_send / multi_receive on a shared list run on the real threads under explored schedules against the '
+         'queues). The helper functions multi_send / multi_receive on a shared list run on the real threads under explored schedules against the '
          'statement only; the behaviour without the lock, and with aliasing instead of copying, are refuted theorems.',
     technique='Coq proof (step invariant preserved by every thread step, induction over the schedule) + model/implementation correspondence on systematically explored schedules', design='5/C10')
 NOT_YET = {}
